@@ -84,6 +84,19 @@ Section C05.
     destruct H as [l0 l loaded verified resolved reduced rl imeta w2 tr2 Hs Hp He Hsu Hc Hl Ht Hss Hal Hred Hel Hr1 Hin Hr2 Hsum].
     exists l, resolved, reduced. auto.
   Qed.
+
+  (* ... and it comes unsigned, in the wrapper of the layout it summarises (the observable the end-to-end correspondence
+     compares: "L:"/"D:" in front of the summary) *)
+  Theorem C05_summary_wrapper_of_accepting_run :
+    forall fuel w path d layout_env keys step_name params inter s w' tr,
+      verify (S fuel) w path d layout_env keys step_name params inter = (Ok s, w', tr) ->
+      e_wrapper s = e_wrapper layout_env /\ e_sigs s = [].
+  Proof.
+    intros fuel w path d layout_env keys step_name params inter s w' tr H.
+    destruct (C05_summary_of_accepting_run _ _ _ _ _ _ _ _ _ _ _ _ H) as [l [resolved [reduced [_ Hsum]]]].
+    destruct (C05_summary_spec _ _ _ _ _ Hsum) as [_ [Hsig Hw]].
+    split; [|exact Hsig]. rewrite Hw. destruct (e_wrapper layout_env); reflexivity.
+  Qed.
 End C05.
 
 Print Assumptions C05_reduce_ok_iff_all_equal.
@@ -92,6 +105,7 @@ Print Assumptions C05_reference_independent.
 Print Assumptions C05_rules_on_agreed_artifacts.
 Print Assumptions C05_summary_spec.
 Print Assumptions C05_summary_of_accepting_run.
+Print Assumptions C05_summary_wrapper_of_accepting_run.
 
 (* non-vacuity: two agreeing links (different by-products) reduce; a third one differing in one digest does not *)
 Example C05_example :
